@@ -233,6 +233,12 @@ def fix_store_addresses(item):
                 nm += 1
             if m.get("table"):
                 nt += 1
+        elif op["op"] == "child":
+            ng += len(m.get("globals", []))
+            if m.get("memory") and not m["memory"].get("shared"):
+                nm += 1
+            if m.get("table"):
+                nt += 1
     return item
 
 
@@ -267,6 +273,23 @@ def main():
             again = dict(it["script"][k_inst], reuse=1)
             calls2 = [dict(o_, inst=2) for o_ in it["script"][k_inst + 1:] if o_["op"] == "call"]
             items.append(dict(it, id=it["id"] + "r", script=it["script"] + [{"op": "free", "inst": 1}, again] + calls2))
+        if j % 4 in (2, 3) or (tier != "quick" and j % 4 == 0):
+            # <module>NewChild: a further instance made from instance 1 (what thread-spawn does).  Its imports are what the
+            # resolver returns, a shared defined memory is the parent's, everything else defined is fresh; it answers the
+            # calls from its own initial state, and the parent's defined state is untouched by what the child does
+            ninst_ = sum(1 for o_ in it["script"] if o_["op"] == "instantiate")
+            c1 = [o_ for o_ in it["script"] if o_["op"] == "call" and o_["inst"] == 1]
+            # only initialised slots are called (w2c2 emits no null check: calling an empty slot is outside the properties)
+            g0 = [o_ for o_ in it["script"] if o_["op"] == "hostglobal"]
+            occ = set()
+            for e_ in it["module"]["elems"]:
+                base = int.from_bytes(bytes(g0[0]["b"] if e_["offset"][0] == "global.get" else e_["offset"][1]), "little")
+                occ |= set(range(base, base + len(e_["funcs"])))
+            icalls = [{"op": "call", "inst": 1, "export": "icall", "args": [arg("i32", s_)]} for s_ in sorted(occ)] \
+                if any(e_["name"] == "icall" for e_ in it["module"]["exports"]) else []
+            reads1 = [o_ for o_ in c1 if o_["export"].startswith(("get", "peek"))][:12]
+            items.append(dict(it, id=it["id"] + "c", script=it["script"] + icalls + [{"op": "child", "inst": 1}] +
+                              [dict(o_, inst=ninst_ + 1) for o_ in icalls + c1] + reads1 + icalls))
     # numbers of globals, data segments and element segments around powers of two: every one of them initialised
     for cnt in ((0, 1, 2, 16, 17, 33, 64, 65, 129) if tier == "quick" else (0, 1, 2, 15, 16, 17, 31, 32, 33, 63, 64, 65, 127, 128, 129, 255, 256, 257)):
         n1 = max(cnt, 1)
